@@ -295,8 +295,8 @@ def check_program(spec, pipeline, seed):
         try:
             got = evaluate(m, args)
         except Poison:
-            return {"pipeline": pipeline, "program": before, "after": str(m), "inputs": repr(args), "why": "rewritten program is undefined on an input where the original is defined",
-                    "key": f"C14/{pipeline}/results"}
+            return {"pipeline": pipeline, "program": before, "after": str(m), "arguments": repr(args), "why": "rewritten program is undefined on an input where the original is defined",
+                    "key": f"C14/{pipeline}/poison", "inputs": {}}
         if got != exp:
             unsigned_cmpi = any(o[0] == "cmpi" and o[1] >= 6 for o in spec["ops"])
             return {"pipeline": pipeline, "program": before, "after": str(m), "arguments": repr(args), "returned": repr(got), "expected": repr(exp),
@@ -442,6 +442,111 @@ def check_fold_method(opname, w, lc, rc, a, b):
         return None
     if got.value.data % M != exp:
         return {"class": cls.__name__, "width": w, "lhs": a, "rhs": b, "fold returned constant": got.value.data, "MLIR result bits": exp}
+    return None
+
+
+def _denote(v, env, w):
+    """Bit pattern denoted by an SSA value of a tiny arith program (block arguments from env)."""
+    from xdsl.dialects import arith
+    from xdsl.ir import BlockArgument
+
+    M = 1 << w
+    if isinstance(v, BlockArgument):
+        return env[v.index]
+    o = v.owner
+    if isinstance(o, arith.ConstantOp):
+        return o.value.value.data % (1 << (o.result.type.width.data if hasattr(o.result.type, "width") else 64))
+    if isinstance(o, arith.SelectOp):
+        return _denote(o.lhs, env, w) if _denote(o.cond, env, 1) else _denote(o.rhs, env, w)
+    ow = o.result.type.width.data
+    return ev_int(o.name.split(".")[1], ow, _denote(o.lhs, env, ow), _denote(o.rhs, env, ow))
+
+
+def _apply_once(module, pattern):
+    from xdsl.pattern_rewriter import PatternRewriteWalker
+
+    PatternRewriteWalker(pattern, apply_recursively=False).rewrite_module(module)
+
+
+@rechecked
+def check_int_pattern(pattern, opname, w, a, b):
+    """One application of the real pattern on `K lhs, rhs` for every constant/argument combination; the user's operand must denote the same bits."""
+    from xdsl.dialects import arith, test
+    from xdsl.dialects.builtin import IntegerAttr, IntegerType, ModuleOp
+    from xdsl.ir import Block, Region
+    from xdsl.transforms.canonicalization_patterns import arith as cp
+
+    cls = next(k for k in vars(arith).values() if isinstance(k, type) and getattr(k, "name", None) == opname)
+    t = IntegerType(w)
+    M = 1 << w
+    a, b = a % M, b % M
+    try:
+        exp = ev_int(opname.split(".")[1], w, a, b)
+    except Poison:
+        return None
+    for lc in (False, True):
+        for rc in (False, True):
+            blk = Block(arg_types=[t, t])
+            vals, ops = [], []
+            for is_const, v, arg in ((lc, a, blk.args[0]), (rc, b, blk.args[1])):
+                if is_const:
+                    c = arith.ConstantOp(IntegerAttr(v, t, truncate_bits=True))
+                    ops.append(c)
+                    vals.append(c.result)
+                else:
+                    vals.append(arg)
+            op = cls(vals[0], vals[1])
+            user = test.TestOp(operands=[op.result])
+            blk.add_ops(ops + [op, user])
+            holder = test.TestOp(regions=[Region(blk)])
+            module = ModuleOp([holder])
+            _apply_once(module, getattr(cp, pattern)())
+            try:
+                got = _denote(user.operands[0], {0: a, 1: b}, w)
+            except Poison:
+                got = "poison"
+            if got != exp:
+                return {"pattern": pattern, "class": cls.__name__, "width": w, "lhs": a, "rhs": b, "lhs constant": lc, "rhs constant": rc,
+                        "value after the rewrite": got, "value before": exp}
+    return None
+
+
+@rechecked
+def check_select_pattern(pattern, w, same_arms, m):
+    """One application of the real Select* pattern; every constant/argument combination of the three operands."""
+    import itertools
+
+    from xdsl.dialects import arith, test
+    from xdsl.dialects.builtin import IntegerAttr, IntegerType, ModuleOp
+    from xdsl.ir import Block, Region
+    from xdsl.transforms.canonicalization_patterns import arith as cp
+
+    t, i1 = IntegerType(w), IntegerType(1)
+    c_, x, y = m.get("cond_bits", 0) % 2, m.get("lhs_bits", 0) % (1 << w), m.get("rhs_bits", 0) % (1 << w)
+    if same_arms:
+        y = x
+    exp = x if c_ else y
+    for consts in itertools.product((False, True), repeat=3):
+        blk = Block(arg_types=[i1, t, t])
+        vals, ops = [], []
+        for is_const, v, arg, ty in zip(consts, (c_, x, y), blk.args, (i1, t, t)):
+            if is_const:
+                k = arith.ConstantOp(IntegerAttr(v, ty, truncate_bits=True))
+                ops.append(k)
+                vals.append(k.result)
+            else:
+                vals.append(arg)
+        if same_arms:
+            vals[2] = vals[1]
+        op = arith.SelectOp(vals[0], vals[1], vals[2])
+        user = test.TestOp(operands=[op.result])
+        blk.add_ops(ops + [op, user])
+        module = ModuleOp([test.TestOp(regions=[Region(blk)])])
+        _apply_once(module, getattr(cp, pattern)())
+        got = _denote(user.operands[0], {0: c_, 1: x, 2: y}, w)
+        if got != exp:
+            return {"pattern": pattern, "width": w, "cond": c_, "lhs": x, "rhs": y, "constant operands": consts, "same arms": same_arms,
+                    "value after the rewrite": got, "value before": exp}
     return None
 
 
